@@ -62,4 +62,36 @@ example : poscDb.getUnitName (Sym.ofString "volume") (Sym.ofString "1000ft3")
     ∧ (poscDb.getUnitName (Sym.ofString "volume") (Sym.ofString "Mcf")).toOption.isSome = true := by
   decide +kernel
 
+-- the composing-mapping forms of `ObtainQuantity`: one entry of exponent 1 with a legacy spelling is the plain
+-- form (the hypotheses of `obtainQuantity_legacy_mapping_ok` are met), for an ordered dict and for a plain dict
+example : poscDb.obtainFromMapping true [⟨Sym.ofString "volume flow rate", Sym.ofString "1000ft3/d", 1⟩]
+      = .ok (.simple ⟨Sym.ofString "volume flow rate", Sym.ofString "Mcf/d"⟩)
+    ∧ poscDb.obtainFromMapping false [⟨Sym.ofString "volume", Sym.ofString "M(m3)", 1⟩]
+      = .ok (.simple ⟨Sym.ofString "volume", Sym.ofString "MMm3"⟩)
+    ∧ poscDb.obtainFromMapping false [⟨Sym.ofString "volume", Sym.ofString "MMm3", 1⟩]
+      = .ok (.simple ⟨Sym.ofString "volume", Sym.ofString "MMm3"⟩) := by decide +kernel
+-- the parallel-lists form, with a category list, a category string and no category
+example : poscDb.obtainFromLists [(Sym.ofString "1000ft3/d", 1)] (.list [Sym.ofString "volume flow rate"])
+      = .ok (.simple ⟨Sym.ofString "volume flow rate", Sym.ofString "Mcf/d"⟩)
+    ∧ poscDb.obtainFromLists [(Sym.ofString "1000ft3/d", 1)] (.str (Sym.ofString "volume flow rate"))
+      = .ok (.simple ⟨Sym.ofString "volume flow rate", Sym.ofString "Mcf/d"⟩)
+    ∧ poscDb.obtainFromLists [(Sym.ofString "1000ft3/d", 1)] .none
+      = .ok (.simple ⟨Sym.ofString "volume flow rate", Sym.ofString "Mcf/d"⟩)
+    ∧ poscDb.obtainFromLists [(Sym.ofString "1000ft3/d", 1)] (.list []) = .error .index := by decide +kernel
+-- a really composing mapping: current symbols give the derived quantity (ordered dict) or a TypeError (plain
+-- dict); a legacy spelling is rejected (`obtainFromMapping_rejects_legacy`: its hypotheses are met)
+example : poscDb.obtainFromMapping true [⟨Sym.ofString "volume", Sym.ofString "MMm3", 1⟩, ⟨Sym.ofString "time", Sym.ofString "s", -1⟩]
+      = .ok (.derived [⟨Sym.ofString "volume", Sym.ofString "MMm3", 1⟩, ⟨Sym.ofString "time", Sym.ofString "s", -1⟩])
+    ∧ poscDb.obtainFromMapping false [⟨Sym.ofString "volume", Sym.ofString "MMm3", 2⟩] = .error .type
+    ∧ poscDb.obtainFromMapping true [⟨Sym.ofString "volume", Sym.ofString "M(m3)", 2⟩] = .error .units
+    ∧ simpleCell [⟨Sym.ofString "volume", Sym.ofString "M(m3)", 2⟩] = none := by decide +kernel
+-- zip truncation and a repeated category make a two-pair list a one-entry mapping again
+example : poscDb.obtainFromLists [(Sym.ofString "M(m3)", 1), (Sym.ofString "s", -1)] (.list [Sym.ofString "volume"])
+      = .ok (.simple ⟨Sym.ofString "volume", Sym.ofString "MMm3"⟩)
+    ∧ poscDb.obtainFromLists [(Sym.ofString "m3", 2), (Sym.ofString "M(m3)", 1)]
+        (.list [Sym.ofString "volume", Sym.ofString "volume"])
+      = .ok (.simple ⟨Sym.ofString "volume", Sym.ofString "MMm3"⟩)
+    ∧ poscDb.obtainFromLists [(Sym.ofString "m3", 2), (Sym.ofString "s", -1)] (.str (Sym.ofString "volume"))
+      = .error .assertion := by decide +kernel
+
 end Barril
